@@ -217,8 +217,8 @@ def split_family():
 
 
 # ------------------------------------------------------------------ C11 C12
-SEAL_CONSTS = {"NodeKeys": '{"e1","e2"}', "ServerKeys": '{"g1","g2"}', "KeyIds": '{"k1","k2"}'}
-SEAL_GEN_CFG = "SPECIFICATION Spec\nCONSTANTS\n  NodeKeys = {\"e1\",\"e2\"}\n  ServerKeys = {\"g1\",\"g2\"}\n  KeyIds = {\"k1\",\"k2\"}\n  Depth = 12\nCHECK_DEADLOCK FALSE\n"
+SEAL_CONSTS = {"NodeKeys": '{"e1","e2"}', "ServerKeys": '{"g1","g2"}', "KeyIds": '{"k1","k2","k0"}'}
+SEAL_GEN_CFG = "SPECIFICATION Spec\nCONSTANTS\n  NodeKeys = {\"e1\",\"e2\"}\n  ServerKeys = {\"g1\",\"g2\"}\n  KeyIds = {\"k1\",\"k2\",\"k0\"}\n  Depth = 12\nCHECK_DEADLOCK FALSE\n"
 
 
 def seal_materialise(scr):
@@ -231,7 +231,18 @@ def seal_extra(prop, tier, seed):
     P = lambda e, g, k: dict(e=e, g=g, k=k)
     none = P("none", "none", "none")
     if prop == "C11":
-        msgs = ["fetchreq", "creds", "tiny"] if tier == "quick" else ["fetchreq", "fetchresp", "creds", "tiny", "reginfo"]
+        msgs = ["fetchreq", "creds", "tiny", "empty"] if tier == "quick" else ["fetchreq", "fetchresp", "creds", "tiny", "reginfo", "empty"]
+        # empty key ids on either side, current or previous, and messages whose encoding is empty
+        ids = ["k1", "k0"]
+        ops = []
+        for m in ("empty", "tiny", "creds"):
+            for sk in ids:
+                for rk in ids:
+                    for pk in ids:
+                        for sside, rside in (("node", "server"), ("server", "node")):
+                            ops.append(dict(op="Crypt", msg=m, sside=sside, rside=rside, s=P("e1", "g1", sk), rcur=P("e1", "g1", rk), rprev=none, tamper="none", sid="keyid", rid="keyid"))
+                            ops.append(dict(op="Crypt", msg=m, sside=sside, rside=rside, s=P("e1", "g1", sk), rcur=P("e2", "g2", rk), rprev=P("e1", "g1", pk), tamper="none", sid="keyid", rid="keyid"))
+        out.append(dict(id="x11_ids", ops=ops))
         for mi, m in enumerate(msgs):
             for variant, (rc, rp) in enumerate([(P("e1", "g1", "k1"), none), (P("e2", "g2", "k2"), P("e1", "g1", "k1"))]):
                 step = 7 if tier == "quick" else 1
